@@ -1,0 +1,84 @@
+//! Verification hooks (only compiled with `--cfg nlnetlabs_roto_verif`)
+//!
+//! Re-exports of crate-private items for the out-of-tree verification
+//! harnesses, plus the schedule-point and code-capture hooks they use.
+//! Nothing in here is compiled into a normal build.
+#![allow(missing_docs)]
+
+pub use crate::ast::{BinOp, Identifier};
+pub use crate::label::{LabelRef, LabelStore};
+pub use crate::lir::{
+    Block, FloatCmp, Instruction, IntCmp, IrType, IrValue, Item, ItemKind,
+    Memory, Operand, Signature, ValueOrSlot, Var, VarKind,
+};
+pub use crate::parser::lexer::Lexer;
+pub use crate::parser::meta::Span;
+pub use crate::parser::token::{FStringToken, Keyword, Token};
+pub use crate::runtime::layout::{Layout, LayoutBuilder};
+pub use crate::typechecker::scope::ScopeRef;
+pub use crate::value::{
+    RotoOption, RotoResult, StringBuf, StringBytes, StringChars,
+    StringLines, VTable,
+};
+
+/// Relative associativity of two binary operators as a small integer
+/// (0 = left, 1 = right, 2 = not allowed)
+pub fn relative_associativity(a: &BinOp, b: &BinOp) -> u8 {
+    use crate::parser::VerifAssociativity as Associativity;
+    match a.relative_associativity(b) {
+        Associativity::Left => 0,
+        Associativity::Right => 1,
+        Associativity::Not => 2,
+    }
+}
+
+/// Schedule hook: harnesses install a callback that is invoked at every
+/// schedule point (see `yield_point`) with the id of the site.
+pub static mut YIELD_HOOK: Option<fn(u32)> = None;
+
+/// A schedule point. Called by the instrumented list operations wherever they
+/// hold no lock (before every lock acquisition, and between looking up an
+/// element pointer and using it).
+#[inline(never)]
+pub fn yield_point(site: u32) {
+    // SAFETY: only single-threaded verification harnesses set this hook
+    unsafe {
+        if let Some(f) = *std::ptr::addr_of!(YIELD_HOOK) {
+            f(site)
+        }
+    }
+}
+
+/// Captured output of the code generator
+pub mod capture {
+    use std::sync::Mutex;
+
+    /// (item name, cranelift IR text) in the order of definition
+    pub static CLIF: Mutex<Vec<(String, String)>> = Mutex::new(Vec::new());
+
+    /// (item name, data id as printed in the IR, bytes)
+    pub static DATA: Mutex<Vec<(String, String, Vec<u8>)>> =
+        Mutex::new(Vec::new());
+
+    /// (address, kind, description)
+    pub static SYMBOLS: Mutex<Vec<(usize, &'static str, String)>> =
+        Mutex::new(Vec::new());
+
+    pub fn clif(name: &str, text: String) {
+        CLIF.lock().unwrap().push((name.to_string(), text));
+    }
+
+    pub fn data(func: &str, id: String, bytes: &[u8]) {
+        DATA.lock().unwrap().push((func.to_string(), id, bytes.to_vec()));
+    }
+
+    pub fn symbol(addr: usize, kind: &'static str, desc: String) {
+        SYMBOLS.lock().unwrap().push((addr, kind, desc));
+    }
+
+    pub fn reset() {
+        CLIF.lock().unwrap().clear();
+        DATA.lock().unwrap().clear();
+        SYMBOLS.lock().unwrap().clear();
+    }
+}
